@@ -82,6 +82,7 @@ fn opnd_str<'tcx>(tcx: TyCtxt<'tcx>, body: &Body<'tcx>, op: &Operand<'tcx>) -> S
                 ty::FnDef(did, args) => {
                     format!("constfn {} @{}", esc(&tcx.def_path_str_with_args(*did, args)), uid(tcx, *did))
                 }
+                ty::Ref(_, inner, _) if inner.is_str() => esc(&format!("conststr {}", c.const_)),
                 _ => match c.const_ {
                     Const::Val(v, ty) => esc(&format!("const {:?}: {}", v, ty)),
                     _ => esc(&format!("const {}", c.const_)),
